@@ -450,67 +450,83 @@ def cc2(repo: Repo) -> RuleResult:
         res.unsure("CC2: generator partition not derivable (see C2)")
         return res
     want = {w: gen[w] // 8 for w in range(1, 65)}
-    # BE: BpBaseTypeStorageSize
+    from .flows import c_runtime
+    from .fold import by_name, lit_value
+    from .node2py import PTR_WIDTH
+    from .normal import show
+    from .pyflow import single_atom, str_of
+
+    # BE: BpBaseTypeStorageSize folded over widths 1..64
     try:
-        cbe = get_c(repo, True)
-        f = cbe.func("BpBaseTypeStorageSize")
-        chain = _le_chain(f.body.stmts, "nbits")
-        part = _partition_from_chain(chain, lambda body: next((s.vals[0].v for s in body if s.k == "return" and s.vals and s.vals[0].k == "int"), None)) if chain else None
+        Lbe = c_runtime(repo, True)
+        fn = Lbe.func("BpBaseTypeStorageSize")
+        pn = fn.args.args[0].arg
+        paths = Lbe.flow(None, names={}, havoc_on=()).run(fn)
+        part: Optional[Dict[int, int]] = {}
+        for w in range(1, 65):
+            feas = [p_ for p_ in paths if all(lit_value(k_, t_, by_name({pn: w})) is True for k_, t_ in p_.guards)]
+            vals = {p_.ret.const_value() for p_ in feas if p_.ret is not None}
+            if len(vals) != 1 or None in vals:
+                part = None
+                break
+            part[w] = vals.pop()  # type: ignore[index]
         res.inst(part="c-be", function="BpBaseTypeStorageSize", classes=sorted(set(part.values())) if part else None)
         if part is None:
-            res.unsure("CC2: BpBaseTypeStorageSize is not an `if (nbits <= k) return s;` chain")
+            res.unsure("CC2: BpBaseTypeStorageSize does not fold to one constant per width")
         else:
             diff = [w for w in range(1, 65) if part[w] != want[w]]
             if diff:
-                fd = Finding("CC2", C_RT, f.line, "BpBaseTypeStorageSize", f"width {diff[0]} -> {part[diff[0]]} bytes", f"big-endian staging reverses {part[diff[0]]} bytes for width {diff[0]}, but the generated struct stores it in {want[diff[0]]} bytes", witness=f"uint{diff[0]} on a big-endian host: bytes are taken from the wrong end of the storage", tag="BpBaseTypeStorageSize")
+                fd = Finding("CC2", C_RT, fn.lineno, "BpBaseTypeStorageSize", f"width {diff[0]} -> {part[diff[0]]} bytes", f"big-endian staging reverses {part[diff[0]]} bytes for width {diff[0]}, but the generated struct stores it in {want[diff[0]]} bytes", witness=f"uint{diff[0]} on a big-endian host: bytes are taken from the wrong end of the storage", tag="BpBaseTypeStorageSize")
                 fd.part = "c-be"
                 res.bad(fd)
     except Inconclusive as e:
         res.unsure(f"CC2: {e}")
-    # JSON width classes (both variants share the code; use default)
+    # JSON width classes (both variants share the code; use default): type the value is read through, per flag and width
     try:
-        c = get_c(repo, False)
-        f = c.func("BpJsonFormatBaseType")
+        L = c_runtime(repo, False)
+        fn = L.func("BpJsonFormatBaseType")
+        params = [a.arg for a in fn.args.args]
         flags = get_macros(repo).type_flags()
-        sw = [s for s in walk(f) if s.get("k") == "switch"]
-        if len(sw) != 1:
-            res.unsure("CC2: BpJsonFormatBaseType switch not found")
-        else:
-            for cs in sw[0].cases:
-                labels = {int(go_src(v)) for v in (cs.vals or [])}
-                signed = flags["BP_TYPE_INT"] in labels
-                if not (labels & {flags["BP_TYPE_INT"], flags["BP_TYPE_UINT"], flags["BP_TYPE_ENUM"]}):
-                    continue
-                chain = _le_chain([s for s in cs.body if s.k == "if"], "nbits")
-
-                def cast_of(body: List[Node]) -> Optional[str]:
-                    for x in walk(body):
-                        if x.get("k") == "conv" and x.type.name.endswith("*") and "int" in x.type.name:
-                            return x.type.name.replace(" ", "")
-                    return None
-
-                part = _partition_from_chain(chain, cast_of) if chain else None
-                res.inst(part="c", function="BpJsonFormatBaseType", signed=signed, classes=sorted({str(v) for v in part.values()}) if part else None)
-                if part is None:
-                    res.unsure("CC2: BpJsonFormatBaseType width chain not recognised")
-                    continue
-                for w in range(1, 65):
-                    exp = f"{'' if signed else 'u'}int{gen[w]}_t*"
-                    if part[w] != exp:
-                        fd = Finding("CC2", C_RT, cs.line, "BpJsonFormatBaseType", f"width {w}: {part[w]}", f"a {'signed' if signed else 'unsigned'} value of width {w} is read through {part[w]}, its storage is {exp[:-1]}", witness=f"{'int' if signed else 'uint'}{w} prints a wrong / sign-flipped / out-of-bounds value in JSON", tag=f"BpJsonFormatBaseType:{'s' if signed else 'u'}")
-                        fd.part = "c"
-                        res.bad(fd)
-                        break
-                # conversion letter matches signedness
-                for x in calls(cs.body, "BpJsonFormatString"):
-                    fmt = x.args[1] if len(x.args) > 1 else None
-                    s = go_src(fmt) if fmt is not None else ""
-                    letter_signed = s.rstrip('"').endswith("d")
-                    letter_unsigned = s.rstrip('"').endswith("u")
-                    if (signed and not letter_signed) or ((not signed) and not letter_unsigned):
-                        fd = Finding("CC2", C_RT, x.line, "BpJsonFormatBaseType", s, f"printf conversion {s} does not match the {'signed' if signed else 'unsigned'} cast", witness="a negative int prints as a large positive number (or the reverse)", tag=f"BpJsonFormatBaseType:letter:{'s' if signed else 'u'}")
-                        fd.part = "c"
-                        res.bad(fd)
+        paths = L.flow(None, names={}, primitives=("BpJsonFormatString",), havoc_on=()).run(fn)
+        for fname_, signed in (("BP_TYPE_INT", True), ("BP_TYPE_UINT", False), ("BP_TYPE_ENUM", False)):
+            classes = set()
+            reported = False
+            for w in range(1, 65):
+                repl = by_name({params[0]: flags[fname_], params[1]: w})
+                feas = [p_ for p_ in paths if all(lit_value(k_, t_, repl) is not False for k_, t_ in p_.guards)]
+                cs = [e for p_ in feas for e in p_.effects if e.kind == "call" and e.name == "BpJsonFormatString"]
+                if len(feas) != 1 or len(cs) != 1 or len(cs[0].args) < 3:
+                    res.unsure(f"CC2: BpJsonFormatBaseType: {len(feas)} paths / {len(cs)} format calls for {fname_} width {w}")
+                    reported = True
+                    break
+                e = cs[0]
+                va = single_atom(e.args[2])
+                ty = None
+                if va is not None and va[0] == "load" and not isinstance(va[1], str):
+                    pa = single_atom(va[1])
+                    if pa is not None and pa[0] == "ptr" and show(pa[2]) == params[3]:
+                        ty = pa[1]
+                classes.add(ty)
+                exp = f"{'' if signed else 'u'}int{gen[w]}_t"
+                if ty is None:
+                    res.unsure(f"CC2: BpJsonFormatBaseType: value `{show(e.args[2])}` for {fname_} width {w} is not read through a typed pointer to data")
+                    reported = True
+                    break
+                if ty != exp:
+                    fd = Finding("CC2", C_RT, fn.lineno, "BpJsonFormatBaseType", f"width {w}: {ty}*", f"a {'signed' if signed else 'unsigned'} value of width {w} is read through {ty}*, its storage is {exp}", witness=f"{'int' if signed else 'uint'}{w} prints a wrong / sign-flipped / out-of-bounds value in JSON", tag=f"BpJsonFormatBaseType:{'s' if signed else 'u'}")
+                    fd.part = "c"
+                    res.bad(fd)
+                    reported = True
+                    break
+                fmt = str_of(e.args[1]) or ""
+                letter = fmt.rstrip('"')[-1:] if fmt else ""
+                if (signed and letter != "d") or ((not signed) and letter != "u"):
+                    fd = Finding("CC2", C_RT, fn.lineno, "BpJsonFormatBaseType", fmt, f"printf conversion {fmt} does not match the {'signed' if signed else 'unsigned'} cast", witness="a negative int prints as a large positive number (or the reverse)", tag=f"BpJsonFormatBaseType:letter:{'s' if signed else 'u'}")
+                    fd.part = "c"
+                    res.bad(fd)
+                    reported = True
+                    break
+            res.inst(part="c", function="BpJsonFormatBaseType", flag=fname_, signed=signed, classes=sorted(str(x) for x in classes))
     except Inconclusive as e:
         res.unsure(f"CC2: {e}")
     return res
@@ -1160,66 +1176,151 @@ def ec4(repo: Repo) -> RuleResult:
 
 @rule("CJ", "C JSON formatter: braces/brackets, key:value, separator iff another item follows, bool words, byte as number")
 def cj(repo: Repo) -> RuleResult:
+    """The JSON formatters are summarised by the path engine.  For the two
+    containers the loop body is specialised to small concrete (index, count)
+    pairs and the token stream it would emit - item and separator tokens - is
+    compared with  item ("," item)*  between one opener and one closer, so it
+    does not matter whether the separator is written before or after an item."""
+    from .flows import c_runtime
+    from .fold import by_name, lit_value
+    from .normal import show
+    from .pyflow import single_atom, str_of
+
     res = RuleResult("CJ", floor=5)
     try:
-        c = get_c(repo, False)
+        L = c_runtime(repo, False)
     except Inconclusive as e:
         res.unsure(f"CJ: {e}")
         return res
 
-    def fmt_calls(fn: Node) -> List[Tuple[str, Set[str], int]]:
-        out = []
-        for x in calls(fn, "BpJsonFormatString"):
-            s = go_src(x.args[1]) if len(x.args) > 1 else ""
-            out.append((s, _guards_of(fn, x), x.line))
-        return out
+    def lit(e: Any, i: int = 1) -> Optional[str]:
+        if len(e.args) <= i:
+            return None
+        s_ = str_of(e.args[i])
+        if s_ is None:
+            return None
+        return s_[1:-1] if len(s_) >= 2 and s_[0] == s_[-1] == '"' else s_
 
-    for fname, opener, closer, count in (("BpJsonFormatMessage", '"{"', '"}"', "descriptor.nfields"), ("BpJsonFormatArray", '"["', '"]"', "descriptor.cap")):
-        f = c.func(fname)
-        fc = fmt_calls(f)
-        res.inst(function=fname, format_calls=[(s, sorted(g)) for s, g, _ in fc])
-        top = [s for s, g, _ in fc if not g]
-        if top[:1] != [opener] or top[-1:] != [closer] or len(top) != 2:
-            res.bad(Finding("CJ", C_RT, f.line, fname, str(top), f"output is not wrapped in {opener} ... {closer} exactly once", witness="invalid JSON", tag=f"{fname}:wrap"))
-        commas = [(s, g) for s, g, _ in fc if s == '","']
-        want = f"k+1<{count}"
-        if len(commas) != 1 or commas[0][1] != {want}:
-            res.bad(Finding("CJ", C_RT, f.line, fname, str(commas), f"the separator is not emitted exactly when another item follows (k + 1 < {count})", witness="trailing / missing comma: invalid JSON", tag=f"{fname}:comma"))
-        loops = [x for x in f.body.stmts if x.k == "for"]
-        if len(loops) != 1 or go_src(loops[0].cond) != f"k < {count}":
-            res.bad(Finding("CJ", C_RT, f.line, fname, "", f"items are not formatted for k = 0..{count}-1", tag=f"{fname}:loop"))
-        elif loops[0].body.stmts:
-            # separator after the item
-            lines = [(s.line, "comma" if any(go_src(y.args[1]) == '","' for y in calls(s, "BpJsonFormatString") if len(y.args) > 1) else "item") for s in loops[0].body.stmts if s.k in ("exprstmt", "if", "switch")]
-            if lines and lines[-1][1] != "comma":
-                res.bad(Finding("CJ", C_RT, f.line, fname, str(lines), "the separator is emitted before the item", tag=f"{fname}:comma-order"))
-    f = c.func("BpJsonFormatMessageField")
-    fc = fmt_calls(f)
-    res.inst(function=f.name, format_calls=[s for s, _, _ in fc])
-    keycall = [x for x in calls(f, "BpJsonFormatString") if len(x.args) > 2]
-    if not (len(keycall) == 1 and go_src(keycall[0].args[1]) == '"\\"%s\\":"' and txt(keycall[0].args[2]) == "descriptor.name"):
-        res.bad(Finding("CJ", C_RT, f.line, f.name, str([s for s, _, _ in fc]), "the key is not emitted as \"<field name>\": before the value", witness="keys missing / unquoted", tag="field:key"))
-    f = c.func("BpJsonFormatBaseType")
-    flags = get_macros(repo).type_flags()
-    sw = [s for s in walk(f) if s.get("k") == "switch"]
-    if len(sw) == 1:
-        for cs in sw[0].cases:
-            labels = {int(go_src(v)) for v in (cs.vals or [])}
-            body_calls = calls(cs.body, "BpJsonFormatString")
-            if flags["BP_TYPE_BOOL"] in labels:
-                t = " ".join(go_src(a) for x in body_calls for a in x.args[1:])
-                res.inst(function=f.name, case="bool", text=t)
-                cond = [y for y in walk(cs.body) if y.get("k") == "cond"]
-                ok = len(cond) == 1 and go_src(cond[0].a) == '"true"' and go_src(cond[0].b) == '"false"' and '"%s"' in t and "bool *" in go_src(cond[0].c)
-                if not ok:
-                    res.bad(Finding("CJ", C_RT, cs.line, f.name, t, "booleans are not printed as true / false (in that polarity) from the bool storage", witness="true prints as false / as 1", tag="base:bool"))
-            if flags["BP_TYPE_BYTE"] in labels:
-                t = " ".join(go_src(a) for x in body_calls for a in x.args[1:])
-                res.inst(function=f.name, case="byte", text=t)
-                if '"%u"' not in t or "unsigned char *" not in t:
-                    res.bad(Finding("CJ", C_RT, cs.line, f.name, t, "bytes are not printed as unsigned numbers", tag="base:byte"))
-    else:
-        res.unsure("CJ: BpJsonFormatBaseType switch not found")
+    prims = ("BpJsonFormatString", "BpJsonFormatMessageField", "BpJsonFormatBaseType")
+    for fname, opener, closer in (("BpJsonFormatMessage", "{", "}"), ("BpJsonFormatArray", "[", "]")):
+        try:
+            fn = L.func(fname)
+            paths = [p_ for p_ in L.flow(None, names={}, primitives=prims, havoc_on=()).run(fn) if p_.done == "return"]
+        except Inconclusive as e:
+            res.unsure(f"CJ: {fname}: {e}")
+            continue
+        for p_ in paths:
+            top = [e for e in p_.effects if e.kind in ("call", "loop")]
+            strs = [(i, lit(e)) for i, e in enumerate(top) if e.kind == "call" and e.name == "BpJsonFormatString"]
+            loops = [(i, e) for i, e in enumerate(top) if e.kind == "loop"]
+            res.inst(function=fname, top=[(s_ if s_ is not None else "?") for _, s_ in strs], loops=len(loops))
+            if [s_ for _, s_ in strs] != [opener, closer] or len(loops) != 1 or not (strs[0][0] < loops[0][0] < strs[1][0]):
+                res.bad(Finding("CJ", C_RT, fn.lineno, fname, str([s_ for _, s_ in strs]), f"output is not wrapped in \"{opener}\" ... \"{closer}\" exactly once around the items", witness="invalid JSON", tag=f"{fname}:wrap"))
+                continue
+            lp = loops[0][1]
+            it = single_atom(lp.args[0]) if lp.args else None
+            if it is None or it[0] != "call" or it[1] != "range" or len(it[2]) != 1:
+                res.unsure(f"CJ: {fname}: items are iterated by `{show(lp.args[0]) if lp.args else None}`")
+                continue
+            count = show(it[2][0])
+            want_count = "descriptor.nfields" if fname == "BpJsonFormatMessage" else "descriptor.cap"
+            if count != want_count:
+                res.bad(Finding("CJ", C_RT, fn.lineno, fname, count, f"items are not formatted for k = 0..{want_count}-1 (the loop runs to `{count}`)", tag=f"{fname}:loop"))
+                continue
+            kvar = lp.node.target.id if hasattr(lp.node, "target") and hasattr(lp.node.target, "id") else "k"
+            # group the body paths by what does not depend on (k, count)
+            groups: Dict[Tuple[str, ...], List[Any]] = {}
+            for sp in lp.sub or []:
+                other = tuple(g for (k_, t_), g in zip(sp.guards, sp.guard_text()) if lit_value(k_, t_, by_name({kvar: 0, count: 1})) is None)
+                groups.setdefault(other, []).append(sp)
+            for other, sps in groups.items():
+                item_calls = {e.name for sp in sps for e in sp.effects if e.kind == "call" and not (e.name == "BpJsonFormatString" and lit(e) == ",")}
+                if not item_calls:
+                    continue  # a type flag with no formatter (unreachable flags): CA2 judges flag coverage
+                bad_stream = None
+                for n_ in (1, 2, 3):
+                    stream: List[str] = []
+                    for k_i in range(n_):
+                        repl = by_name({kvar: k_i, count: n_})
+                        feas = [sp for sp in sps if all(lit_value(k_, t_, repl) is not False for k_, t_ in sp.guards)]
+                        if len(feas) != 1:
+                            bad_stream = f"{len(feas)} paths for k={k_i}, count={n_}"
+                            break
+                        for e in feas[0].effects:
+                            if e.kind != "call":
+                                continue
+                            if e.name == "BpJsonFormatString":
+                                stream.append(lit(e) if lit(e) is not None else "?")
+                            else:
+                                stream.append("item")
+                    if bad_stream:
+                        break
+                    want_stream = ["item"] + [",", "item"] * (n_ - 1)
+                    if stream != want_stream:
+                        bad_stream = f"{n_} item(s) give the token stream {stream}"
+                        break
+                if bad_stream:
+                    res.bad(Finding("CJ", C_RT, fn.lineno, fname, bad_stream, f"the separator is not emitted exactly between consecutive items ({bad_stream}{'; under ' + ' and '.join(other) if other else ''})", witness="trailing / missing comma: invalid JSON", tag=f"{fname}:comma"))
+                    break
+            # field k is formatted from descriptor k
+            if fname == "BpJsonFormatMessage":
+                for sp in lp.sub or []:
+                    for e in sp.effects:
+                        if e.kind == "call" and e.name == "BpJsonFormatMessageField" and show(e.args[0]) not in (f"descriptor.field_descriptors[{kvar}]", f"descriptor.field_descriptors + {kvar}", f"{kvar} + descriptor.field_descriptors"):
+                            res.bad(Finding("CJ", C_RT, fn.lineno, fname, show(e.args[0]), "field k is not formatted from field_descriptors[k]", tag=f"{fname}:item"))
+    # key before value
+    try:
+        fn = L.func("BpJsonFormatMessageField")
+        ok = True
+        seen = []
+        for p_ in L.flow(None, names={}, primitives=prims, havoc_on=()).run(fn):
+            cs = [e for e in p_.effects if e.kind == "call"]
+            seen.append([e.name for e in cs])
+            if len(cs) < 2:
+                continue  # flag without formatter
+            k0 = cs[0]
+            if not (k0.name == "BpJsonFormatString" and lit(k0) == '\\"%s\\":' and len(k0.args) > 2 and show(k0.args[2]) == "descriptor.name"):
+                ok = False
+        res.inst(function="BpJsonFormatMessageField", calls=seen)
+        if not ok:
+            res.bad(Finding("CJ", C_RT, fn.lineno, "BpJsonFormatMessageField", str(seen), "the key is not emitted as \"<field name>\": before the value", witness="keys missing / unquoted", tag="field:key"))
+    except Inconclusive as e:
+        res.unsure(f"CJ: {e}")
+    # bool words and byte as number
+    try:
+        fn = L.func("BpJsonFormatBaseType")
+        params = [a.arg for a in fn.args.args]
+        flags = get_macros(repo).type_flags()
+        paths = L.flow(None, names={}, primitives=("BpJsonFormatString",), havoc_on=()).run(fn)
+        for kind, flag in (("bool", flags["BP_TYPE_BOOL"]), ("byte", flags["BP_TYPE_BYTE"])):
+            repl = by_name({params[0]: flag, params[1]: 8 if kind == "byte" else 1})
+            feas = [p_ for p_ in paths if all(lit_value(k_, t_, repl) is not False for k_, t_ in p_.guards)]
+            texts = []
+            okk = bool(feas)
+            for p_ in feas:
+                cs = [e for e in p_.effects if e.kind == "call" and e.name == "BpJsonFormatString"]
+                if len(cs) != 1:
+                    okk = False
+                    continue
+                e = cs[0]
+                texts.append((lit(e), show(e.args[2]) if len(e.args) > 2 else None, [g for g in p_.guard_text() if "[0]" in g]))
+                if kind == "bool":
+                    val = str_of(e.args[2]) if len(e.args) > 2 else None
+                    tests = [(k_, t_) for k_, t_ in p_.guards if k_[0] == "truthy" and "(bool*)" in show(k_[1]).replace(" ", "")]
+                    if lit(e) != "%s" or len(tests) != 1 or val not in ('"true"', '"false"') or (val == '"true"') != tests[0][1]:
+                        okk = False
+                else:
+                    if lit(e) != "%u" or len(e.args) < 3 or show(e.args[2]) not in (f"{params[3]}[0]", f"(uint8_t*){params[3]}[0]"):
+                        okk = False
+            res.inst(function=fn.name, case=kind, text=texts)
+            if not okk:
+                if kind == "bool":
+                    res.bad(Finding("CJ", C_RT, fn.lineno, fn.name, str(texts), "booleans are not printed as true / false (in that polarity) from the bool storage", witness="true prints as false / as 1", tag="base:bool"))
+                else:
+                    res.bad(Finding("CJ", C_RT, fn.lineno, fn.name, str(texts), "bytes are not printed as unsigned numbers", tag="base:byte"))
+    except Inconclusive as e:
+        res.unsure(f"CJ: {e}")
+    c = get_c(repo, False)
     f = c.func("BpJsonFormatString")
     t = " ; ".join(go_src(s.rhs[0]) if s.k == "assign" else (go_src(s.x) if s.k == "exprstmt" else s.k) for s in f.body.stmts)
     res.inst(function=f.name, body=t)
